@@ -75,7 +75,28 @@ fn no_dictionary_vector(strategy: u32, huff: u32) -> Vec<u32> {
 
 /// perturb one group of fields; returns the group's name
 fn perturb(v: &mut Vec<u32>, dna: &mut Dna) -> &'static str {
-    match dna.below(13) {
+    match dna.below(17) {
+        15 | 16 => {
+            let f = [P_ZLIB_COMPATIBLE, P_VERY_FAR_MATCHES, P_MATCHES_TO_START, P_MATCHES_TO_START][dna.below(4)];
+            v[f] ^= 1;
+            "flags"
+        }
+        13 => {
+            // lazy matching that keeps looking beyond the nice length (not a zlib preset,
+            // but each field is inside its emit range)
+            v[P_GOOD_LENGTH] = [4u32, 8, 32][dna.below(3)];
+            v[P_MAX_LAZY] = [16u32, 32, 128, 258][dna.below(4)];
+            v[P_NICE_LENGTH] = [8u32, 16][dna.below(2)];
+            v[P_MAX_CHAIN] = [4u32, 8, 32, 128][dna.below(4)];
+            "lazy-beyond-nice"
+        }
+        14 => {
+            // boundary values of the numeric fields
+            v[P_MAX_CHAIN] = [1u32, 2, 4095, 4096][dna.below(4)];
+            v[P_MAX_DIST_3_MATCHES] = [0u32, 1, 32767, 32768][dna.below(4)];
+            v[P_MAX_TOKEN_COUNT] = [127u32, 32767][dna.below(2)];
+            "boundaries"
+        }
         0 => {
             let (h, s, m) = [(1u32, 5u32, 0x7fffu32), (1, 4, 2047), (2, 0, 0), (3, 0, 0), (4, 0, 0), (5, 0, 0), (6, 0, 0), (7, 0, 0)]
                 [dna.below(8)];
